@@ -89,7 +89,7 @@ ASSUMPTIONS = [
     "fixed configurations per entry point: retry(max_attempts=2, sleep=1), poll(interval=3, poll fn yields at once), throttle(count=1), timeout(5000 | 2)",
     "finish instant: derived future done <= (instant the underlying work ended) + 64*eps; fallback timers (2 s, 30 s, poll interval) are >> 64*eps",
 ]
-BOUNDS_TEXT = {"quick": "18 entry points + 12 two-layer stacks, 4 ways the work ends, P<=1 (P=0 for stacks with worker threads)",
+BOUNDS_TEXT = {"quick": "18 entry points (P<=2) + 15 two-layer stacks (P<=1 / P=0), 4-5 ways the work ends; line-level preemption (P<=1) inside retry.py / poll.py / throttle.py / timeout.py",
                "thorough": "P<=2 / P<=1"}
 MUST_REACH = {"*": ["promptness-checked", "external-cancel-ended"]}
 BUDGET = {"quick": 90.0, "thorough": 600.0}
@@ -103,6 +103,9 @@ def plan(tier, seed):
     for n in STACKS2:
         deep = n in ("stack:retry+poll", "stack:poll+retry", "stack:retry+throttle", "stack:map+poll", "stack:flat_map+retry", "stack:timeout+map", "stack:cancel_on_shutdown+retry")
         items.append(dict(scenario="lost", params=dict(entry=n), bounds=dict(P=(1 if deep else 0) if q else (2 if deep else 1))))
+    # line mode: every source line of the layer's worker loop / callbacks is a scheduling point
+    for n, f_ in (("retry", "retry.py"), ("poll", "poll.py"), ("throttle", "throttle.py"), ("timeout", "timeout.py")):
+        items.append(dict(scenario="lost", params=dict(entry=n), bounds=dict(P=1 if q else 2, line_files=["_impl/" + f_])))
     for n in ("stack:timeout_short+retry", "stack:timeout_short+map", "stack:timeout_short+poll"):
         items.append(dict(scenario="lost", params=dict(entry=n, kinds=["never", "value"]), bounds=dict(P=1 if q else 2)))
     return items
